@@ -9,6 +9,8 @@
 //
 //	OMode m | OEnv addr enable etcd | OMod kind      declarations, collected from the whole list
 //	OFault f                                         declaration: the etcd operation that fails (etcdfake.go)
+//	OCallback fwd req                                declaration: the start (fwd) / stop completion callback itself
+//	                                                 requests App.Start (req) / App.Stop, from inside the callback
 //	OStart | OStop                                   ModList.Start/Stop, App start/stop, StartNode/StopNode
 //	OFire k b                                        invoke the continuation captured at the k-th module entry with b
 //
@@ -22,10 +24,13 @@ import (
 	"net"
 	"os"
 	"path/filepath"
+	"reflect"
 	"sort"
 	"strings"
 	"sync"
+	"sync/atomic"
 	"time"
+	"unsafe"
 
 	"github.com/asynkron/protoactor-go/remote"
 	"github.com/sirupsen/logrus"
@@ -61,7 +66,9 @@ type envT struct {
 	addr     string // AFree | ABusy | ABad
 	enable   bool
 	etcd     bool
+	fixed    string // AFixed: this case's own address, a port nobody holds yet
 	faults   map[string]bool
+	cb       map[bool]*bool // completion callback of Start (true) / Stop (false) -> the request it makes
 	mods     []kindT
 }
 
@@ -74,7 +81,7 @@ func parseBeh(t hx.T) beh {
 }
 
 func parseEnv(ops []hx.T) envT {
-	e := envT{mode: "MList", addr: "AFree", faults: map[string]bool{}}
+	e := envT{mode: "MList", addr: "AFree", faults: map[string]bool{}, cb: map[bool]*bool{}}
 	for _, o := range ops {
 		switch o.Name {
 		case "OMode":
@@ -89,6 +96,9 @@ func parseEnv(ops []hx.T) envT {
 			e.etcd = o.Bool(2)
 		case "OFault":
 			e.faults[o.Term(0).Name] = true
+		case "OCallback":
+			req := o.Bool(1)
+			e.cb[o.Bool(0)] = &req
 		case "OMod":
 			k := o.Term(0)
 			kd := kindT{name: k.Name}
@@ -145,7 +155,7 @@ func setup(scratch string) error {
 		}
 		cluster := "---\nEnable: " + v[1] + "\nNodeCtrl: false\nName: vcluster\nETCDServer: " + v[2] + "\n"
 		nodes := "---\nnodes:\n"
-		for _, n := range [][2]string{{"node-afree", "127.0.0.1:0"}, {"node-abusy", lis.Addr().String()}, {"node-abad", "badaddr"}} {
+		for _, n := range [][2]string{{"node-afree", "127.0.0.1:0"}, {"node-abusy", lis.Addr().String()}, {"node-abad", "badaddr"}, {"node-afixed", "127.0.0.1:0"}} {
 			nodes += "  " + n[0] + ":\n    StartMode: " + launchName + "\n    Address: " + n[1] + "\n    Services: []\n"
 		}
 		nodes += "services: {}\n"
@@ -194,6 +204,8 @@ func (e envT) cfgDir() string {
 
 func (e envT) address() string {
 	switch e.addr {
+	case "AFixed":
+		return e.fixed
 	case "ABusy":
 		return fx.busy.Addr().String()
 	case "ABad":
@@ -217,17 +229,37 @@ type executor struct {
 	fired   map[int]int
 	nruns   int64
 	runFwd  []bool
-	curRun  int64
-	through bool // a panic is unwinding through a next() call
-	dead    bool // an operation hung; nothing is recorded any more
-	added   bool
-	mods    []interfaces.IAppModule
-	ml      *module.ModList
-	node    *app.App
-	entered bool
-	etcd    *etcdCase // this case's view of the etcd stand-in
+	curCall *callCtx // the Start/Stop call (or fired continuation) in progress
+	// a request made from inside a completion callback is in progress since / was made by run
+	nestedSince atomic.Int64
+	nestedBy    atomic.Int64
+	nestedLock  atomic.Bool // the list's lock was held when it was made: it cannot return
+	through     bool        // a panic is unwinding through a next() call
+	dead        bool        // an operation hung; nothing is recorded any more
+	added       bool
+	mods        []interfaces.IAppModule
+	ml          *module.ModList
+	node        *app.App
+	entered     bool
+	etcd        *etcdCase // this case's view of the etcd stand-in
 	// a ClusterModule.Start reported success itself (provider goroutines are running) / settle ran
 	clusterUp, settled bool
+}
+
+// callCtx is one ModList.Start/Stop (App.Start/Stop, StartNode/StopNode) call.  Its run id is
+// given out when it produces its first event: a refused call is not a run.
+type callCtx struct {
+	id  int64
+	fwd bool
+}
+
+func (x *executor) runID(c *callCtx) int64 {
+	if c.id < 0 {
+		c.id = x.nruns
+		x.nruns++
+		x.runFwd = append(x.runFwd, c.fwd)
+	}
+	return c.id
 }
 
 func (x *executor) emit(t hx.T) {
@@ -252,7 +284,7 @@ func (m *smod) Stop(next interfaces.FuncWithSucc)  { m.enter(false, next) }
 
 func (m *smod) enter(fwd bool, next interfaces.FuncWithSucc) {
 	x := m.x
-	r := x.curRun
+	r := x.runID(x.curCall)
 	x.entered = true
 	x.emit(hx.C("EEnter", r, m.idx))
 	x.caps = append(x.caps, capture{r, m.idx, next})
@@ -330,59 +362,110 @@ func (x *executor) addModules(a interfaces.IApp) {
 const hangAfter = 3 * time.Second
 
 // guarded runs f on its own goroutine (delayed completions arrive on other goroutines
-// than the one that called Start) and waits for it.
-func (x *executor) guarded(r int64, f func()) {
+// than the one that called Start) and waits for it.  A call that cannot return because it
+// waits for the list lock its own goroutine holds is reported as EDeadlock (see request).
+func (x *executor) guarded(c *callCtx, f func()) {
 	done := make(chan struct{})
 	go func() {
 		defer close(done)
 		defer func() {
 			if p := recover(); p != nil {
 				x.through = false
-				x.emit(hx.C("EEscape", r))
+				x.emit(hx.C("EEscape", x.runID(c)))
 			}
 		}()
 		f()
 	}()
-	select {
-	case <-done:
-	case <-time.After(hangAfter):
-		x.mu.Lock()
-		x.cur = append(x.cur, hx.C("EHang"))
-		x.dead = true
-		x.mu.Unlock()
+	deadline := time.After(hangAfter)
+	tick := time.NewTicker(2 * time.Millisecond)
+	defer tick.Stop()
+	for {
+		select {
+		case <-done:
+			return
+		case <-tick.C:
+			if t := x.nestedSince.Load(); t != 0 && x.nestedLock.Load() && time.Since(time.Unix(0, t)) > 60*time.Millisecond {
+				x.mu.Lock()
+				x.cur = append(x.cur, hx.C("EDeadlock", x.nestedBy.Load()))
+				x.dead = true
+				x.mu.Unlock()
+				return
+			}
+		case <-deadline:
+			x.mu.Lock()
+			x.cur = append(x.cur, hx.C("EHang"))
+			x.dead = true
+			x.mu.Unlock()
+			return
+		}
 	}
 }
 
-func (x *executor) startStop(fwd bool) {
-	r := x.nruns
-	x.curRun = r
-	fin := func(b bool) { x.emit(hx.C("EFin", r, b)) }
-	x.guarded(r, func() {
-		switch x.env.mode {
-		case "MList":
-			if fwd {
-				x.ml.Start(fin)
-			} else {
-				x.ml.Stop(fin)
-			}
-		case "MApp":
-			if fwd {
-				baseapp.LaunchAppWithMode(x.node.App, baseapp.NewFuncMode(x.addModules), fin)
-			} else {
-				x.node.App.Stop(fin)
-			}
-		case "MNode":
-			if fwd {
-				x.node.StartNode(nodeID(x.env.addr), fin)
-			} else {
-				x.node.StopNode(fin)
-			}
-		}
-	})
-	if len(x.cur) > 0 {
-		x.nruns++ // the call was not refused: a run exists
-		x.runFwd = append(x.runFwd, fwd)
+// listLocked reports whether the App's module list holds its lock right now (observed with
+// TryLock on the real mutex; the fields are unexported).  Operations are sequential, so a held
+// lock is held by the goroutine that asks.
+func (x *executor) listLocked() bool {
+	msf := reflect.ValueOf(x.node.App).Elem().FieldByName("ms")
+	ml := reflect.NewAt(msf.Type(), unsafe.Pointer(msf.UnsafeAddr())).Elem().Interface().(*module.ModList)
+	lf := reflect.ValueOf(ml).Elem().FieldByName("lock")
+	mu := reflect.NewAt(lf.Type(), unsafe.Pointer(lf.UnsafeAddr())).Elem().Interface().(*sync.RWMutex)
+	if mu.TryLock() {
+		mu.Unlock()
+		return false
 	}
+	return true
+}
+
+// invoke performs the Start (c.fwd) or Stop call of this case's mode with a recording
+// completion callback; the callback makes the request declared for it (OCallback) itself.
+func (x *executor) invoke(c *callCtx) {
+	fin := func(b bool) {
+		r := x.runID(c)
+		x.emit(hx.C("EFin", r, b))
+		if req := x.env.cb[c.fwd]; req != nil && (x.env.mode == "MApp" || x.env.mode == "MNode") {
+			x.request(r, *req)
+		}
+	}
+	switch x.env.mode {
+	case "MList", "MListNode":
+		if c.fwd {
+			x.ml.Start(fin)
+		} else {
+			x.ml.Stop(fin)
+		}
+	case "MApp":
+		if c.fwd {
+			baseapp.LaunchAppWithMode(x.node.App, baseapp.NewFuncMode(x.addModules), fin)
+		} else {
+			x.node.App.Stop(fin)
+		}
+	case "MNode":
+		if c.fwd {
+			x.node.StartNode(nodeID(x.env.addr), fin)
+		} else {
+			x.node.StopNode(fin)
+		}
+	}
+}
+
+// request: run r's completion callback asks the App to start (req) / stop, right here
+func (x *executor) request(r int64, req bool) {
+	saved := x.curCall
+	x.curCall = &callCtx{id: -1, fwd: req}
+	x.nestedBy.Store(r)
+	x.nestedLock.Store(x.listLocked())
+	x.nestedSince.Store(time.Now().UnixNano())
+	defer func() {
+		x.nestedSince.Store(0)
+		x.curCall = saved
+	}()
+	x.invoke(x.curCall)
+}
+
+func (x *executor) startStop(fwd bool) {
+	c := &callCtx{id: -1, fwd: fwd}
+	x.curCall = c
+	x.guarded(c, func() { x.invoke(c) })
 }
 
 func (x *executor) fire(k int64, b bool) {
@@ -391,8 +474,9 @@ func (x *executor) fire(k int64, b bool) {
 	}
 	c := x.caps[k]
 	x.fired[int(k)]++
-	x.curRun = c.run
-	x.guarded(c.run, func() {
+	cc := &callCtx{id: c.run, fwd: x.runFwd[c.run]}
+	x.curCall = cc
+	x.guarded(cc, func() {
 		x.emit(hx.C("ENext", c.run, c.mod, b))
 		c.next(b)
 	})
@@ -432,6 +516,16 @@ func newExecutor(ops []hx.T) (*executor, error) {
 			}
 		}
 	}
+	if env.addr == "AFixed" {
+		// a port of this case's own: free now, and nobody else will be handed it while a
+		// remote of this case holds it
+		l, err := net.Listen("tcp", "127.0.0.1:0")
+		if err != nil {
+			return nil, err
+		}
+		env.fixed = l.Addr().String()
+		l.Close()
+	}
 	x := &executor{env: env, fired: map[int]int{}}
 	x.etcd = newEtcdCase(env.faults)
 	fx.etcd.begin(x.etcd)
@@ -440,13 +534,21 @@ func newExecutor(ops []hx.T) (*executor, error) {
 	app.Node = x.node
 	if !(env.mode == "MApp" && !env.prepared) {
 		x.node.Prepare(env.cfgDir())
-		if env.mode != "MNode" {
+		if env.addr == "AFixed" {
+			x.node.GetNodes().Nodes[nodeID(env.addr)].Address = env.fixed
+		}
+		if env.mode != "MNode" && env.mode != "MListNode" {
 			// StartNode does this itself; the other modes leave the node info nil
 			x.node.GetCluster().InitSelf(env.address(), x.node.GetClusterCfg(), nodeID(env.addr), nil, nil)
 		}
 	}
 	fx.launcher = x
-	if env.mode == "MList" {
+	if env.mode == "MListNode" {
+		// give the node its node info: start it with a launch list that registers nothing
+		x.added = true
+		x.node.StartNode(nodeID(env.addr), func(bool) {})
+	}
+	if env.mode == "MList" || env.mode == "MListNode" {
 		x.ml = module.NewModList()
 		for _, m := range x.mods {
 			m.Init(x.node.GetRunService())
@@ -666,15 +768,45 @@ func genRandom(cfg *hx.Config, maxOps int) (ops []hx.T, obs []any, nontrivial bo
 	case p < 80:
 		mode = "MApp"
 		ops = append(ops, hx.C("OMode", hx.C("MApp", true)))
-	case p < 85:
+	case p < 84:
 		mode = "MApp0"
 		ops = append(ops, hx.C("OMode", hx.C("MApp", false)))
-	default:
+	case p < 93:
 		mode = "MNode"
 		ops = append(ops, hx.C("OMode", "MNode"))
+	default:
+		mode = "MListNode"
+		ops = append(ops, hx.C("OMode", "MListNode"))
 	}
 	tg["mode-"+mode] = true
 	etcdEnv := false
+	if (mode == "MApp" || mode == "MNode") && r.Intn(5) == 0 {
+		// the owner's callbacks make requests themselves
+		for k := 1 + r.Intn(2); k > 0; k-- {
+			fwd, req := r.Intn(4) > 0, r.Intn(4) == 0
+			tg[map[bool]string{true: "callback-start", false: "callback-stop"}[req]+"-in-"+map[bool]string{true: "start", false: "stop"}[fwd]] = true
+			ops = append(ops, hx.C("OCallback", fwd, req))
+		}
+	}
+	if mode == "MListNode" {
+		switch p := r.Intn(100); {
+		case p < 35:
+			tg["env-addr-fixed"] = true
+			ops = append(ops, hx.C("OEnv", "AFixed", false, false))
+		case p < 60:
+			tg["env-addr-busy"] = true
+			ops = append(ops, hx.C("OEnv", "ABusy", false, false))
+		case p < 75:
+			tg["env-etcd"] = true
+			etcdEnv = true
+			ops = append(ops, hx.C("OEnv", []string{"AFixed", "AFree", "ABad"}[r.Intn(3)], true, true))
+			if r.Intn(2) == 0 {
+				f := faultNames[1+r.Intn(len(faultNames)-1)]
+				tg["fault-"+f] = true
+				ops = append(ops, hx.C("OFault", f))
+			}
+		}
+	}
 	if mode == "MApp" || mode == "MNode" {
 		// environment of the shipped modules: mostly the self-cluster node, sometimes the
 		// failure paths that are reachable offline
@@ -716,7 +848,7 @@ func genRandom(cfg *hx.Config, maxOps int) (ops []hx.T, obs []any, nontrivial bo
 	wellBehaved := r.Intn(3) > 0 // two thirds of the histories keep the at-most-once hypothesis
 	actor := false
 	for i := 0; i < n; i++ {
-		if i == clusterAt || (mode != "MList" && r.Intn(8) == 0) {
+		if i == clusterAt || (mode != "MList" && r.Intn(8) == 0) || (mode == "MListNode" && r.Intn(2) == 0) {
 			k := []string{"KWelcome", "KCluster", "KActor"}[r.Intn(3)]
 			if i == clusterAt {
 				k = "KCluster"
@@ -790,6 +922,11 @@ func genRandom(cfg *hx.Config, maxOps int) (ops []hx.T, obs []any, nontrivial bo
 		switch {
 		case !started && p < 85:
 			started = true
+			push(hx.C("OStart"))
+		case stopped && (mode == "MList" || mode == "MListNode") && len(w) == 0 && p < 40:
+			// a second life cycle of the same module objects
+			tg["cycle-restart"] = true
+			stopped = false
 			push(hx.C("OStart"))
 		case len(w) > 0 && p < 80:
 			k := w[r.Intn(len(w))]
@@ -903,6 +1040,59 @@ func builtinScenarios() (out [][]hx.T, tags [][]string) {
 	add([]string{"builtin-etcd-fault", "fault-FDelete", "stale-fire"}, etcd("AFree"), fault("FDelete"), probe, c, start, stop, hx.C("OFire", 2, true), hx.C("OFire", 1, false))
 	// remote cannot listen while the cluster is up
 	add([]string{"builtin-actor-listen-fail", "builtin-etcd-ok"}, node, etcd("ABusy"), w, c, a, probe, start, stop)
+
+	// ---- second life cycles.  MListNode: the bare list on a node that has its node info, so that
+	// the App guard does not stand between a failed Start and Stop, nor between Stop and a restart
+	ln := hx.C("OMode", "MListNode")
+	fire := func(k int64, b bool) hx.T { return hx.C("OFire", k, b) }
+	add([]string{"cycle-stop-after-failed-start", "builtin-actor-listen-fail"}, ln, env("ABusy", false), w, a, start, stop)
+	add([]string{"cycle-stop-after-failed-start", "builtin-actor-listen-fail"}, ln, env("ABusy", false), a, probe, start, stop, stop)
+	add([]string{"cycle-stop-after-failed-start", "cycle-restart", "builtin-actor-listen-fail"}, ln, env("ABusy", false), probe, a, probe, start, stop, start, stop)
+	add([]string{"cycle-restart", "listener-still-bound"}, ln, env("AFixed", false), w, a, start, stop, start, stop)
+	add([]string{"cycle-restart", "listener-still-bound"}, ln, env("AFixed", false), w, a, c, probe, start, stop, start, stop, start, stop)
+	add([]string{"cycle-restart", "listener-still-bound", "start-again"}, ln, env("AFixed", false), a, start, start, stop, stop)
+	add([]string{"cycle-restart"}, ln, env("AFree", false), w, a, start, stop, start, stop)
+	add([]string{"cycle-restart"}, ln, env("AFree", false), w, a, c, probe, start, stop, start, stop)
+	add([]string{"cycle-restart", "two-actor-systems"}, ln, env("AFree", false), a, a, start, stop, start, stop)
+	add([]string{"cycle-restart", "two-actor-systems", "listener-still-bound"}, ln, env("AFixed", false), a, a, start, stop)
+	add([]string{"cycle-restart", "later"}, ln, env("AFixed", false), later, a, later, start, fire(0, true), fire(2, true), stop, fire(3, true), fire(5, true),
+		start, fire(6, true), stop, fire(8, true))
+	add([]string{"cycle-restart", "builtin-etcd-ok", "listener-still-bound"}, ln, etcd("AFixed"), w, a, c, start, stop, start, stop)
+	add([]string{"cycle-restart", "builtin-etcd-fault", "fault-FDelete"}, ln, etcd("AFree"), fault("FDelete"), w, a, c, start, stop, start, stop)
+	add([]string{"cycle-restart", "builtin-etcd-fault", "fault-FPut"}, ln, etcd("AFree"), fault("FPut"), w, a, c, start, stop, start, stop)
+	add([]string{"cycle-restart", "builtin-cluster-stop-after-failed-start"}, ln, etcd("ABad"), w, a, c, start, stop, start, stop)
+	add([]string{"cycle-restart"}, node, env("AFixed", false), w, a, c, probe, start, stop, start, stop)
+	add([]string{"cycle-restart"}, appm, env("AFixed", false), w, c, probe, start, stop, start, stop)
+	add([]string{"cycle-restart", "later"}, script(bLater, bOK), script(bOK, bLater), start, fire(0, true), stop, fire(2, true), start, fire(4, true), stop, fire(6, true))
+	add([]string{"cycle-restart", "sync-fail"}, script(bOK, bOK), script(bFail, bOK), probe, start, stop, start, stop)
+	add([]string{"builtin-actor-no-info"}, ln, env("AFree", false), start, stop)
+
+	// ---- requests made from inside the completion callbacks
+	cb := func(fwd, req bool) hx.T { return hx.C("OCallback", fwd, req) }
+	for _, m := range []hx.T{appm, node} {
+		// Stop from the start callback: every module synchronous - the callback runs under the list lock
+		add([]string{"callback-stop-in-start", "callback-under-lock"}, m, cb(true, false), probe, probe, start, stop)
+		add([]string{"callback-stop-in-start", "callback-under-lock"}, m, cb(true, false), start, stop)
+		// ... with a module that completes later the callback runs outside the lock: the stop run runs right there
+		add([]string{"callback-stop-in-start", "later"}, m, cb(true, false), probe, later, start, fire(1, true), stop)
+		add([]string{"callback-stop-in-start", "later"}, m, cb(true, false), later, probe, start, fire(0, true), stop)
+		add([]string{"callback-stop-in-start", "later"}, m, cb(true, false), later, later, start, fire(0, true), fire(1, true), fire(2, true), fire(3, true), stop)
+		add([]string{"callback-stop-in-start", "later", "late-fail"}, m, cb(true, false), probe, later, start, fire(1, false), stop)
+		add([]string{"callback-stop-in-start", "later", "double-next"}, m, cb(true, false), later, script(bTwice, bOK), start, fire(0, true), stop)
+		add([]string{"callback-stop-in-start", "later", "panic-after-next"}, m, cb(true, false), later, script(mkBeh(true, true), bOK), probe, start, fire(0, true))
+		add([]string{"callback-stop-in-start", "later", "stale-fire"}, m, cb(true, false), probe, later, start, fire(1, true), fire(1, true), fire(1, false))
+		// the requests that must be refused: Start from the start callback, anything from the stop callback
+		add([]string{"callback-start-in-start", "callback-under-lock"}, m, cb(true, true), probe, probe, start, stop)
+		add([]string{"callback-start-in-start", "later"}, m, cb(true, true), probe, later, start, fire(1, true), stop)
+		add([]string{"callback-start-in-stop", "callback-under-lock"}, m, cb(false, true), probe, probe, start, stop, start)
+		add([]string{"callback-stop-in-stop", "later"}, m, cb(false, false), later, probe, start, fire(0, true), stop, fire(3, true), stop)
+		add([]string{"callback-stop-in-start", "callback-start-in-stop", "later"}, m, cb(true, false), cb(false, true), probe, later, start, fire(1, true), start, stop)
+	}
+	add([]string{"callback-stop-in-start", "later", "builtin-node-ok"}, node, env("AFree", false), cb(true, false), w, a, c, later, start, fire(3, true), stop)
+	add([]string{"callback-stop-in-start", "later", "builtin-etcd-fault", "fault-FDelete"}, node, etcd("AFree"), fault("FDelete"), cb(true, false), w, a, c, later, start, fire(3, true))
+	add([]string{"callback-stop-in-start", "callback-under-lock", "builtin-node-ok"}, node, env("AFree", false), cb(true, false), w, a, c, start)
+	add([]string{"callback-stop-in-start"}, hx.C("OMode", hx.C("MApp", false)), cb(true, false), probe, start, stop)
+	add([]string{"callback-ignored-bare-list"}, cb(true, false), cb(false, true), probe, later, start, fire(1, true), stop)
 	return
 }
 
